@@ -84,7 +84,7 @@ Section Build.
     set (s3 := set_active s2r _).
     (* facts about the consumed run, available when the locations are in range *)
     assert (Hrun : locs_ok s0 -> forall col pkts, collect s2 consume = (col, false) -> all_some col = Some pkts ->
-              l_tail consume < 65536 /\
+              l_tail consume < 65536 /\ N.of_nat (List.length pkts) < 65536 /\
               exists hp rest, pkts = hp :: rest /\
                 Forall2 (fun key p => In (key, p) (buf s2)) (keys_from (l_head (active s2)) (List.length pkts)) pkts /\
                 l_head (active s2) < 65536 /\
@@ -100,8 +100,8 @@ Section Build.
       apply scan_iter in Eit; [|exact Hh]. rewrite Er in Eit.
       destruct Eit as [Eit|(k & _ & Hp & Hen)]; [cbn in Eit; subst consume; cbn in Ece; discriminate|].
       destruct (consumed_run is_tail s2 consume col pkts k Hh Hp Hen Ece Hcol Has)
-        as (_ & Ht & hp & rest & -> & HF & Hb & Hts).
-      split; [exact Ht|]. exists hp, rest. split; [reflexivity|]. split; [exact HF|]. split; [exact Hh|].
+        as (_ & Ht & Hlen & hp & rest & -> & HF & Hb & Hts).
+      split; [exact Ht|]. split; [exact Hlen|]. exists hp, rest. split; [reflexivity|]. split; [exact HF|]. split; [exact Hh|].
       intro Hs. specialize (Hts Hs). split; [|exact Hts].
       apply fetchTimestamp_snd in Hs. destruct Hs as (hp' & Hb' & Hf). rewrite Hb in Hb'. injection Hb' as <-.
       subst ht. rewrite Hf. reflexivity. }
@@ -163,10 +163,10 @@ Section Build.
     assert (R05 : rel s0 s5).
     { apply (rel_add_sample s0 s4 s5 smp (l_tail (prepared s4)) R04); try reflexivity.
       intros Hok.
-      destruct (Hrun Hok col (hp :: rest) eq_refl Eas) as (Htl & hp' & rest' & Epk & HF & Hh & Hts).
+      destruct (Hrun Hok col (hp :: rest) eq_refl Eas) as (Htl & Hlen & hp' & rest' & Epk & HF & Hh & Hts).
       injection Epk as <- <-. split.
       - exists (l_head (active s2)), hp, rest, (d0 :: ds).
-        split; [exact Hh|]. split; [reflexivity|]. split.
+        split; [exact Hh|]. split; [exact Hlen|]. split; [reflexivity|]. split.
         { eapply Forall2_mono; [|exact HF]. intros k0 p0 Hin. apply (r_buf _ _ _ _ _ R2). exact Hin. }
         split; [apply negb_false_iff in Ehd; exact Ehd|]. split; [|reflexivity].
         cbn [map]. rewrite Eu. f_equal. apply all_some_spec. exact Eds.
@@ -233,7 +233,7 @@ Section Build.
 
   Lemma sample_run_incl : forall P P' x, incl P P' -> sample_run P x -> sample_run P' x.
   Proof.
-    intros P P' x Hi (h & hp & rest & ds & Hh & H1 & H2 & H3 & H4 & H5).
+    intros P P' x Hi (h & hp & rest & ds & Hh & Hl & H1 & H2 & H3 & H4 & H5).
     exists h, hp, rest, ds. repeat (split; [assumption|]). split; [|tauto].
     eapply Forall2_mono; [|exact H2]. intros k p [Hin Hs]. split; [apply Hi; exact Hin|exact Hs].
   Qed.
@@ -256,8 +256,8 @@ Section Build.
     - intros x Hx. destruct (a2 i0 x Hx) as [H|[H H']].
       + destruct (i2 x H) as [G G']. split; [exact G|]. intro Hf. apply G'. apply af. exact Hf.
       + split; [|exact H'].
-        destruct H as (h & hp & rest & ds & Hh & H1 & H2 & H3).
-        exists h, hp, rest, ds. split; [exact Hh|]. split; [exact H1|]. split; [|exact H3].
+        destruct H as (h & hp & rest & ds & Hh & Hl & H1 & H2 & H3).
+        exists h, hp, rest, ds. split; [exact Hh|]. split; [exact Hl|]. split; [exact H1|]. split; [|exact H3].
         eapply Forall2_mono; [|exact H2]. intros k p Hin. apply i1. exact Hin.
     - intros e He. destruct (a4 e He) as [H|H]; [apply a3; apply i3; exact H|exact H].
     - auto.
